@@ -102,8 +102,14 @@ def execute(case):
         e = case["vals"].get("%d.est" % i)
         if mode in (2, 3) and i % 2:
             e = (e or 0) + 1
+        kw = {}
+        if case["id"] % 4 == 1:
+            # a WBS that carries dates (typed in, or the result of a scheduler): the critical path is about
+            # estimates and dependencies, dates say nothing
+            st = common.FakeDT(2030, 1, 7) + __import__("datetime").timedelta(days=(i * 3 + case["id"]) % 9)
+            kw = {"start": st, "end": st + __import__("datetime").timedelta(days=(i + case["id"]) % 4)}
         objs[i] = pj.Task(t["id"], name="T%d" % i, estimate=e, spent=case["vals"].get("%d.spent" % i),
-                          milestone=bool(t.get("ms")))
+                          milestone=bool(t.get("ms")), **kw)
     w = pj.WBS()
 
     # a summary that is re-parented AFTER the first query (ancestor chains must not be remembered)
